@@ -238,6 +238,8 @@ func checkC02(w *World, r *Recorder) propInfo {
 	}
 	messageWriters(w, r, "C02-V5")
 	c20Payload(w, r, "C02-V6")
+	auditCoseVerify(w, r, "C02-audit")
+	auditCoseUnmarshal(w, r, "C02-audit")
 	r.Floor("C02-V1", 1)
 	r.Floor("C02-V2", 1)
 	r.Floor("C02-V3", 1)
@@ -447,6 +449,7 @@ func checkC03(w *World, r *Recorder) propInfo {
 		}
 	}
 	remapRule(r, "C19-Y4", "C03-S4")
+	auditCoseSign(w, r, "C03-audit")
 	r.Floor("C03-S4", 2)
 	r.Floor("C03-S1", 2)
 	r.Floor("C03-S2", 2)
@@ -590,6 +593,9 @@ func checkC19(w *World, r *Recorder) propInfo {
 		r.Undecide("C19-Y4", "DecodeClaimsFromCBOR", "-", "not found")
 	}
 	messageWriters(w, r, "C19-Y5")
+	auditCoseSign(w, r, "C19-audit")
+	auditCoseVerify(w, r, "C19-audit")
+	auditCoseUnmarshal(w, r, "C19-audit")
 	r.Floor("C19-Y1", 8)
 	r.Floor("C19-Y2", 3)
 	r.Floor("C19-Y3", 6)
@@ -752,6 +758,7 @@ func checkC20(w *World, r *Recorder) propInfo {
 			}
 		}
 	}
+	auditCoseUnmarshal(w, r, "C20-audit")
 	r.Floor("C20-U1", 3)
 	r.Floor("C20-U2", 4)
 	r.Floor("C20-U3", 1)
